@@ -223,10 +223,18 @@ func (x *instance) laws(o apiOp, r callResult, e *obs) string {
 }
 
 // runSeq runs a call sequence on an instance, comparing after every call.  Returns the first API-level problem.
+// twinOnly: the run decides property C13 (a flushed network / solver behaves like a freshly built one) on modular
+// networks: histories are only executed, flushed instances are compared with fresh twins, nothing is compared with the
+// values ModularAct.tla predicts (how a modular network activates is not C13's business).
+var twinOnly bool
+
 func (rp *replayer) runSeq(x *instance, s *seqCase, where string, g *group) string {
 	for k, o := range s.Ops {
 		r := x.apply(o)
 		rp.rep.Evaluations += 2
+		if twinOnly {
+			continue
+		}
 		if k >= len(s.Log) {
 			break
 		}
@@ -296,17 +304,22 @@ func (rp *replayer) runHist(g *group, h *seqCase, sufs []seqCase, maxPairs int, 
 		ok, err := x.std.Flush()
 		fok, ferr := x.fast.Flush()
 		rp.rep.Evaluations += 2
+		if twinOnly {
+			ok, err, fok, ferr = true, nil, true, nil
+		}
 		if !ok || err != nil || !fok || ferr != nil {
 			rp.fail("flush", fmt.Sprintf("%s [%s]; Flush returned (%v, %v) / fast (%v, %v) net=%s", v.name, opsString(h.Ops), ok, err, fok, ferr, g.raw), pairCase(g, h, nil))
 			return
 		}
 		fl := *h.Flushed
 		fl.Sok, fl.Fok = true, true
-		if bad := x.api(callResult{sok: true, fok: true}, &fl); bad != "" {
+		if bad := x.api(callResult{sok: true, fok: true}, &fl); bad != "" && !twinOnly {
 			rp.fail("flush", fmt.Sprintf("%s [%s]; Flush: %s net=%s", v.name, opsString(h.Ops), bad, g.raw), pairCase(g, h, nil))
 			return
 		}
-		x.internals(rp, &fl, v.name+" after Flush")
+		if !twinOnly {
+			x.internals(rp, &fl, v.name+" after Flush")
+		}
 		for i, c := range fl.Scon {
 			if c == 1 && i < len(x.std.ControlNodes()) && x.std.ControlNodes()[i].VerifState().IsActive {
 				rp.observe("Network.Flush does not visit the control nodes: their isActive flag stays raised (read by nothing "+
@@ -365,7 +378,7 @@ func (rp *replayer) runPair(a, t *instance, s *seqCase, vname string, g *group) 
 					vhu.Fstr(tn[i].Activation), tn[i].ActivationsCount, vhu.Fstr(tn[i].GetActiveOutTd()))
 			}
 		}
-		if k >= len(s.Log) {
+		if k >= len(s.Log) || twinOnly {
 			continue
 		}
 		e := &s.Log[k]
@@ -598,6 +611,7 @@ func replayModular(args []string) int {
 	cases := fs.String("cases", "", "NDJSON net / hist / suffix lines printed by MC_ModularAct")
 	out := fs.String("out", "", "report file")
 	maxPairs := fs.Int("maxpairs", 6, "suffixes run after each history (rotating through the network's suffixes)")
+	fs.BoolVar(&twinOnly, "twin-only", false, "C13 on modular networks: only compare flushed instances with fresh twins (no conformance with ModularAct.tla)")
 	_ = fs.Parse(args)
 	rp := &replayer{rep: &vhu.Report{Command: "replay-modular"}, internal: map[string]int{}, obsv: map[string]*observation{},
 		seen: map[uint64]bool{}, stats: map[string]int{}, classes: map[string]int{}}
